@@ -85,11 +85,17 @@ Alpha(Ts, Ops, Ps, Ns, Misc) ==
 AllOps  == FileOps \cup {"dupin", "dupout"}
 AllT    == {0, 1, 2, 3, 5}
 AllMisc == {"closein", "closeout", "here"}
+\* every operator x every operand kind x every target
 Full1   == Alpha(AllT, AllOps, {"a", "m", "d", "t"}, {1, 3, 4, 5, 10}, AllMisc)
-\* reduced alphabet for the later positions of a list
-Small   == Alpha({1, 2, 3}, {"in", "out", "app", "dupout"}, {"a", "m"}, {1, 2, 3}, {"closeout"})
-          \cup Alpha({0}, {"in", "dupin"}, {"m"}, {3, 10}, {"here"})
-Mid     == Alpha({0, 1, 2, 3, 5}, AllOps, {"a", "m", "d"}, {1, 2, 3, 4, 10}, {"closeout", "here"})
+\* reduced alphabets for lists of two and three
+Small   == Alpha({1, 2}, {"out", "app"}, {"a", "m"}, {}, {"closeout"})
+           \cup Alpha({1, 2}, {"in"}, {"m"}, {}, {})
+           \cup Alpha({1, 2}, {"dupout"}, {}, {1, 2, 3}, {})
+           \cup {R(3, "in", "a", -1), R(3, "out", "m", -1), R(3, "dupout", "", 1)}
+           \cup Alpha({0}, {"in", "dupin"}, {"m"}, {3, 10}, {"here"})
+Mid     == Alpha({1, 2, 3}, AllOps, {"a", "m", "d"}, {1, 2, 3, 4, 10}, {"closeout", "here"})
+           \cup Alpha({0}, {"in", "rw", "dupin"}, {"a", "m"}, {3, 5, 10}, {"closein", "here"})
+Lim1    == Alpha({1, 3, 5}, AllOps, {"a", "m"}, {1, 4, 10}, {"closeout", "here"})
 
 AllKinds  == {"special", "builtin", "function", "group", "subshell", "notfound", "empty", "exec"}
 CoreKinds == {"builtin", "special", "exec", "empty"}
@@ -101,45 +107,43 @@ Seq1(A)       == {<<a>> : a \in A}
 Seq2(A, B)    == {<<a, b>> : a \in A, b \in B}
 Seq3(A, B, C) == {<<a, b, c>> : a \in A, b \in B, c \in C}
 
-Bst(kind) == IF kind \in {"builtin", "function", "group"} THEN {0, 3} ELSE {0}
+\* exit statuses the command body ends with (3 = "the command failed")
+Bst(kind, both) == IF both /\ kind \in {"builtin", "function", "group"} THEN {0, 3} ELSE {0}
 
-Family(inits, ncs, lims, kinds, lists) ==
-  {Sc(init, nc, lim, kind, b, l) :
-     init \in inits, nc \in ncs, lim \in lims, kind \in kinds, b \in {0, 3}, l \in lists}
-
-Keep(s) == s.bst \in Bst(s.kind)
+Family(inits, ncs, lims, kinds, both, lists) ==
+  {s \in {Sc(init, nc, lim, kind, b, l) :
+            init \in inits, nc \in ncs, lim \in lims, kind \in kinds, b \in {0, 3}, l \in lists}
+     : s.bst \in Bst(s.kind, both)}
 
 Limits == (0 .. 13) \cup {NoLimit}
+All4   == {"std", "x35", "full", "int"}
 
 Scenarios ==
-  {s \in
-    CASE Cfg = "dbg" -> Family({"std"}, {FALSE}, {NoLimit}, {"builtin"},
-                               {<<R(1, "out", "a", -1), R(1, "out", "m", -1)>>})
-      [] Cfg = "neg" -> Family({"std", "x35"}, BOOLEAN, {NoLimit}, {"builtin", "exec"},
-                               Seq1(Small \cup Alpha({1}, {"clob"}, {"a"}, {}, {})) \cup Seq2(Small, Small))
-      [] Cfg = "tiny" -> Family({"std", "x35"}, {FALSE}, {NoLimit, 11}, {"builtin", "exec"},
-                                Seq1(Small) \cup {<<>>})
-      \* every single redirection x every kind x every initial table, no limit
-      [] Cfg = "q1" -> Family({"std", "x35", "full", "int"}, BOOLEAN, {NoLimit}, AllKinds,
-                              Seq1(Full1) \cup {<<>>})
-      \* single redirections under every descriptor limit
-      [] Cfg = "q2" -> Family({"std", "x35", "full", "int"}, {FALSE}, 0 .. 13, CoreKinds,
-                              Seq1(Alpha(AllT, AllOps, {"a", "m"}, {1, 4, 10}, {"closeout", "here"})))
-      \* pairs, no limit
-      [] Cfg = "q3" -> Family({"std", "x35"}, BOOLEAN, {NoLimit}, CoreKinds \cup {"function"},
-                              Seq2(Small, Small))
-      \* pairs under the limits where the second saved copy does not fit
-      [] Cfg = "q4" -> Family({"std", "int"}, {FALSE}, {10, 11, 12}, CoreKinds,
-                              Seq2(Small, Small))
-      \* thorough families
-      [] Cfg = "t1" -> Family({"std", "x35", "full", "int"}, BOOLEAN, Limits, AllKinds,
-                              Seq1(Full1) \cup {<<>>})
-      [] Cfg = "t2" -> Family({"std", "x35"}, BOOLEAN, {NoLimit}, AllKinds, Seq2(Mid, Mid))
-      [] Cfg = "t3" -> Family({"std", "x35", "int"}, {FALSE}, {4, 10, 11, 12, 13}, CoreKinds,
-                              Seq2(Mid, Mid))
-      [] Cfg = "t4" -> Family({"std", "x35"}, BOOLEAN, {NoLimit, 11, 12}, CoreKinds,
-                              Seq3(Small, Small, Small))
-    : Keep(s)}
+  CASE Cfg = "dbg"  -> Family({"std"}, {FALSE}, {NoLimit}, {"builtin"}, FALSE,
+                              {<<R(1, "out", "a", -1), R(1, "out", "m", -1)>>})
+    [] Cfg = "neg"  -> Family({"std", "x35"}, BOOLEAN, {NoLimit}, {"builtin", "exec"}, FALSE,
+                              Seq1(Small \cup Alpha({1}, {"clob"}, {"a"}, {}, {})) \cup Seq2(Small, Small))
+    [] Cfg = "tiny" -> Family({"std", "x35"}, {FALSE}, {NoLimit, 11}, {"builtin", "exec"}, TRUE,
+                              Seq1(Small) \cup {<<>>})
+    \* quick -----------------------------------------------------------------
+    \* every single redirection x every command kind, no limit
+    [] Cfg = "q1" -> Family({"std", "x35"}, BOOLEAN, {NoLimit}, AllKinds, TRUE, Seq1(Full1) \cup {<<>>})
+                     \cup Family({"full", "int"}, {FALSE}, {NoLimit}, CoreKinds, TRUE,
+                                 Seq1(Alpha({0, 1, 3}, AllOps, {"a", "m"}, {1, 4, 10}, AllMisc)))
+    \* single redirections under every descriptor limit
+    [] Cfg = "q2" -> Family(All4, {FALSE}, 0 .. 13, {"builtin", "exec", "empty"}, FALSE, Seq1(Lim1))
+    \* pairs, no limit
+    [] Cfg = "q3" -> Family({"std", "x35"}, BOOLEAN, {NoLimit}, CoreKinds \cup {"function"}, FALSE,
+                            Seq2(Small, Small))
+    \* pairs under the limits where the second saved copy does not fit
+    [] Cfg = "q4" -> Family({"std", "int"}, {FALSE}, {10, 11, 12}, {"builtin", "exec", "empty"}, FALSE,
+                            Seq2(Small, Small))
+    \* thorough --------------------------------------------------------------
+    [] Cfg = "t1" -> Family(All4, BOOLEAN, Limits, AllKinds, TRUE, Seq1(Full1) \cup {<<>>})
+    [] Cfg = "t2" -> Family({"std", "x35"}, BOOLEAN, {NoLimit}, AllKinds, FALSE, Seq2(Mid, Mid))
+    [] Cfg = "t3" -> Family(All4, {FALSE}, 3 .. 13, CoreKinds \cup {"function"}, FALSE, Seq2(Small, Small))
+    [] Cfg = "t4" -> Family({"std", "x35"}, BOOLEAN, {NoLimit, 12}, {"builtin", "exec", "empty"}, FALSE,
+                            Seq3(Small, Small, Small))
 
 -----------------------------------------------------------------------------
 Runs(kind)   == kind \in {"special", "builtin", "function", "group", "subshell"}
